@@ -31,7 +31,36 @@ ENGINES["tasksim"] = {
                               "GC ticker disabled; GC runs as an explicit operation with fake-clock jumps past the TTL"]},
 }
 
+ENGINES["treesim"] = {
+    "serves": ["C01"],
+    "kind": "single-goroutine event loop over 2-4 real sync-tree replicas with a simulated network (message multiset, ordered response streams), crash/restart, seeded fates",
+    "real_vs_stub": {"real": ["objecttree (verifying change builder, validator, Tree, treeBuilder, reduce, loadIterator, storage)",
+                              "synctree (syncTree, syncHandler, requestFactory, InnerHeadUpdate, response producer/collector, treeRemoteGetter)",
+                              "list.AclList (full validation) over any-store", "spacestorage, headstorage, statestorage", "any-store / SQLite on tmpfs",
+                              "objectmessages + spacesyncproto/treechangeproto codecs (every message crosses the wire as bytes)"],
+                     "stub": ["transport: harness SyncClient (Broadcast/QueueRequest/SendTreeRequest) + in-flight message multiset and response streams",
+                              "sync.SyncService queues and objectsync dispatch are bypassed (one object per run)", "syncstatus = no-op", "peers = names only",
+                              "ACL records are produced once by the owner (real builder; harness builder in sorted order for removals) and pre-applied on every replica"]},
+}
+
 PROPS = {
+    "C01": {
+        "engine": "treesim",
+        "level": "exploration",
+        "budget": {"quick": 60, "thorough": 900},
+        "rule": "one run = 2-4 replicas of one tree (own any-store each, real ACL with one writer account per replica), up to 40 local AddContent (plain/snapshot, 0-35% snapshots, encrypted in 30%) "
+                "interleaved by the seeded scheduler with per-message fates deliver-any (reordering) / drop / duplicate, response-stream batch delivery / stream break, crash and restart from storage; "
+                "then faults stop, the network drains and pairwise anti-entropy runs until a fixpoint (cap N+2 rounds). Step invariants after every event on the touched replica. "
+                "Non-trivial: >=2 changes created and (>=1 fault fired or the run is one of the ~10% fault-free runs). Distinct = distinct event-kind sequences; states = per-replica (stored count, head count) shapes.",
+        "assumptions": COMMON_ASSUMPTIONS + ["a responder produces all batches of a response at request time (its tree does not change between batches)",
+                                             "crash = loss of all in-memory state with the any-store file as left by completed calls (C10 covers mid-call crashes)",
+                                             "ACL is identical and complete on all replicas in C01 runs (C02 covers lagging ACL)"],
+        "technique": "deterministic simulation: seeded message schedule with loss/duplication/reordering/stream breaks/crash-restart over real sync-tree replicas, step invariants + convergence oracle after a fair heal phase",
+        "level_text": "Seeded exploration of message schedules and fault sequences over real replicas; invariants (storage closure, heads recorded = heads held, order respects causality, advertised subset of held) "
+                      "after every event, convergence (equal heads and stored sets = union of created changes) after faults stop and a fair anti-entropy phase.",
+        "level_note": "real tree/sync/ACL/storage code; network and scheduling are simulated; liveness asserted only after faults stop",
+        "expected_probes": [],
+    },
     "C16": {
         "engine": "tasksim",
         "level": "exploration",
